@@ -486,6 +486,12 @@ impl World {
 						}
 					}
 				},
+				Event::PaymentClaimed { payment_hash, .. } => {
+					// ground truth: the recipient released the preimage
+					if let Some(p) = self.payments.iter_mut().find(|p| p.hash == payment_hash) {
+						p.claimed_by_recipient = true;
+					}
+				},
 				Event::BumpTransaction(bev) => {
 					self.nodes[n].bumper.handle_event(&bev);
 				},
